@@ -80,8 +80,10 @@ theorem published_only_for_successful_writes (tr : List Item) (k : Kind) (w : Na
     SQL / `Commit` / `Rollback` failures injected), sequential bulks through
     `Bulker.Run` (atomic or not, `continueOnFailure` or not, any element list) and
     raw calls on any wrapper handle, interleaved in any way — that respects the
-    calling discipline (`BeginTX` only outside a transaction, no `Commit` through a
-    wrapper returned by `LockLedger` inside a transaction), the global trace
+    calling discipline (a *raw* `BeginTX` only outside a transaction, no `Commit`
+    through a wrapper returned by `LockLedger` inside a transaction; the nested
+    `BeginTX` that `handleState` itself issues inside an atomic bulk's transaction is
+    part of the model and covered), the global trace
     satisfies `c31Ok`: every event is published after the successful commit of
     the outermost transaction containing its write, failed / dry-run / rolled-back /
     commit-failed writes publish nothing, every committed write publishes exactly once. -/
@@ -119,8 +121,7 @@ theorem events_counterexample :
     c31Ok (runOps s0 first).2.trace = false ∧
     (runOps s0 first).2.trace =
       [.begin 1 0 .ok, .lock 1 .ok, .sql 1 1 .ok, .sql 1 2 .ok, .sql 1 3 .ok,
-       .write 1 .createTx false 1 .ok, .publish .createTx 1, .release 1, .commit 1 .ok,
-       .rollback 1 .done] ∧
+       .write 1 .createTx false 1 .ok, .publish .createTx 1, .release 1, .commit 1 .ok] ∧
     c31Ok (runOps s0 commitFails).2.trace = false ∧
     (specOf (runOps s0 commitFails).2.trace).dur = [] ∧
     (specOf (runOps s0 commitFails).2.trace).pub = [(.createTx, 1)] ∧
@@ -153,6 +154,25 @@ example :
     disciplined true ({ inUse := false } : St) ops = true ∧
     (specOf (runOps ({ inUse := false } : St) ops).2.trace).pub =
       [(.saveAccMeta, 1), (.createTx, 6), (.delTxMeta, 7), (.insertSchema, 9)] := by
+  decide
+
+/-- Non-vacuity for the nested shape: an atomic bulk on an initializing ledger — the
+    first element runs `handleState` inside the bulk's transaction (savepoint 2 in
+    transaction 1); its event waits for the OUTER commit; when a later element
+    fails, or the outer commit fails, nothing is published. -/
+example :
+    let ok : List Op := [.bulk true false [⟨.createTx, true, 1⟩, ⟨.saveAccMeta, true, 2⟩] {}]
+    let laterFails : List Op := [.bulk true false [⟨.createTx, true, 1⟩, ⟨.saveAccMeta, false, 2⟩] {}]
+    let outerCommitFails : List Op := [.bulk true false [⟨.createTx, true, 1⟩] { commitTop := true }]
+    (runOps ({ inUse := false } : St) ok).2.trace =
+      [.begin 1 0 .ok, .begin 2 1 .ok, .lock 2 .ok, .sql 2 1 .ok, .sql 2 2 .ok, .sql 2 3 .ok,
+       .write 2 .createTx false 1 .ok, .release 2, .commit 2 .ok,
+       .write 1 .saveAccMeta false 2 .ok, .commit 1 .ok,
+       .publish .createTx 1, .publish .saveAccMeta 2] ∧
+    (specOf (runOps ({ inUse := false } : St) laterFails).2.trace).pub = [] ∧
+    (specOf (runOps ({ inUse := false } : St) laterFails).2.trace).dur = [] ∧
+    (specOf (runOps ({ inUse := false } : St) outerCommitFails).2.trace).pub = [] ∧
+    (specOf (runOps ({ inUse := false } : St) outerCommitFails).2.trace).dur = [] := by
   decide
 
 end Ledger.C31
